@@ -90,6 +90,7 @@ type Frame struct {
 	params []string
 	closureOf map[ssa.Value]*closureInfo
 	curState *State
+	idxBases *[]string // comparator harness: slices indexed by the comparator's index parameters
 	escaped []*closureInfo
 	dep     bool
 	silent  bool
@@ -141,6 +142,7 @@ type Enc struct {
 	inlineStack []*ssa.Function
 	topFrame   *Frame
 	ghost      map[string]string
+	ghostType  map[string]types.Type
 	ifaceTypes []types.Type
 	usedTrusted map[string]bool
 	bindErrs   []string
@@ -166,7 +168,7 @@ type Enc struct {
 func newEnc(w *World, f *ssa.Function, spec *Specs) *Enc {
 	e := &Enc{w: w, top: f, d: newDecls(), heaps: map[string]heapSig{}, heapRef: map[string]bool{}, oldTerms: map[string]bool{},
 		allocTerms: map[string]bool{}, selMemo: map[interface{}]string{}, strConsts: map[string]string{}, globals: map[string]bool{},
-		nameCount: map[string]int{}, spec: spec, flagInfo: map[int]string{}, frameOn: true, ghost: map[string]string{}, usedTrusted: map[string]bool{}, privateRefs: map[string]bool{}, invDone: map[string]bool{}, tokIDs: map[string]int{}, readMemo: map[*ssa.Function][]string{}}
+		nameCount: map[string]int{}, spec: spec, flagInfo: map[int]string{}, frameOn: true, ghost: map[string]string{}, ghostType: map[string]types.Type{}, usedTrusted: map[string]bool{}, privateRefs: map[string]bool{}, invDone: map[string]bool{}, tokIDs: map[string]int{}, readMemo: map[*ssa.Function][]string{}}
 	e.a0 = "A0"
 	e.d.decl("A0", "() Int")
 	e.assume("(>= A0 1)")
@@ -1111,6 +1113,11 @@ func (e *Enc) instr(fr *Frame, st *State, in ssa.Instruction) *State {
 		switch u := x.X.Type().Underlying().(type) {
 		case *types.Slice:
 			s := e.val(fr, x.X)
+			if fr.idxBases != nil {
+				if _, isParam := x.Index.(*ssa.Parameter); isParam {
+					*fr.idxBases = append(*fr.idxBases, s)
+				}
+			}
 			e.addOb(fr, "SAFE", "index", x.Pos(), e.exprText(x.Pos(), "index"), fmt.Sprintf("(and (<= 0 %s) (< %s (slen %s)))", idx, idx, s), false)
 			e.assumeG(fmt.Sprintf("(and (<= 0 %s) (< %s (slen %s)))", idx, idx, s))
 			fr.addrs[x] = &Addr{heap: e.elemHeap(u.Elem()), loc: Loc{"(sarr " + s + ")", "(+ (soff " + s + ") " + idx + ")"}, typ: u.Elem()}
